@@ -99,6 +99,9 @@ pub enum IterHow {
 pub struct Step {
     pub back: bool,
     pub sink: Sink,
+    /// `nth(skip)` / `nth_back(skip)` instead of `next()` / `next_back()`: the skipped items are
+    /// consumed (and, for an owning iterator, destroyed) by the iterator itself
+    pub skip: u8,
 }
 #[derive(Clone, Copy, Debug, PartialEq, Eq)]
 pub enum End {
@@ -276,6 +279,9 @@ fn script(s: &[Step]) -> String {
     let mut o = String::new();
     for st in s {
         o.push(if st.back { 'B' } else { 'F' });
+        if st.skip > 0 {
+            o.push_str(&format!("+{}", st.skip));
+        }
         if st.sink != Sink::DROP {
             o.push_str(&format!("[{}]", st.sink));
         }
